@@ -27,13 +27,14 @@ theorem thr_other {σ σ' : St} (M : MInv σ) {x u : Nat} (hux : u ≠ x) (hxi :
     (hhs : ∀ a, a ≠ (σ.th x).g → σ'.hs a = σ.hs a)
     (hsl : ∀ a, a ≠ (σ.th x).g → a ∈ σ.sl → a ∈ σ'.sl)
     (hcl : ∀ a s, a ≠ (σ.th x).g → a ∈ σ.cl s → a ∈ σ'.cl s)
-    (hnil : (σ.th u).pc ≠ .idle → ∀ s, (s = (σ.th u).s ∨ s = (σ.th u).ns) → σ.cl s = [] → σ'.cl s = [])
+    (hnilr : (σ.th u).pc.remPC = true → σ.cl (σ.th u).s = [] → σ.est (σ.th u).s = true → σ'.cl (σ.th u).s = [])
+    (hnila : (σ.th u).pc.addPC = true → σ.cl (σ.th u).ns = [] → σ'.cl (σ.th u).ns = [])
     (hest : σ.est (σ.th u).s = true → σ'.est (σ.th u).s = true)
     (hsing : (σ.th u).pc ≠ .idle → σ.cl (σ.th u).s = [(σ.th u).g] → σ'.cl (σ.th u).s = [(σ.th u).g]) :
     TLoc σ' (σ.th u) := by
   obtain ⟨o1, o2⟩ := other_handles M hux hxi
   exact TLoc_transfer (M.thr u) (fun h => hhs _ (o1 h)) (fun h => hhs _ (o2 h)) (fun h => hsl _ (o1 h))
-    (fun h => hsl _ (o2 h)) (fun h s => hcl _ s (o1 h)) (fun h s => hcl _ s (o2 h)) hnil hest hsing
+    (fun h => hsl _ (o2 h)) (fun h s => hcl _ s (o1 h)) (fun h s => hcl _ s (o2 h)) hnilr hnila hest hsing
 
 /-- the stepping thread's own facts at `m1` (writer count load; sole writer switches to the single-writer path) -/
 theorem tloc_m1 (σ : St) (x inp : Nat) (L : TLoc σ (σ.th x)) (hpc : (σ.th x).pc = .m1) :
@@ -61,34 +62,37 @@ theorem tloc_la1 (σ : St) (x inp : Nat) (L : TLoc σ (σ.th x)) (hpc : (σ.th x
       PC.addPC, PC.kOK, Outer.futConv, Outer.viewCall]; done)
 
 /-- what an `m1` / `la1` step does to the table: at most `uni := true` on the thread's own handle -/
-theorem uni_step_facts (σ : St) (x inp : Nat) (h : (σ.th x).pc = .m1 ∨ (σ.th x).pc = .la1) :
+theorem uni_step_facts (σ : St) (x inp : Nat) (M : MInv σ) (h : (σ.th x).pc = .m1 ∨ (σ.th x).pc = .la1) :
     (stepRun σ x inp).2.writers = σ.writers ∧ (stepRun σ x inp).2.ncons = σ.ncons ∧ (stepRun σ x inp).2.sl = σ.sl ∧
     (stepRun σ x inp).2.cl = σ.cl ∧ (stepRun σ x inp).2.ring = σ.ring ∧
     (∀ a, a ≠ (σ.th x).g → (stepRun σ x inp).2.hs a = σ.hs a) ∧
     ((stepRun σ x inp).2.hs (σ.th x).g = σ.hs (σ.th x).g ∨
      ((stepRun σ x inp).2.hs (σ.th x).g = { σ.hs (σ.th x).g with uni := true } ∧
-      (((σ.th x).pc = .m1 ∧ σ.writers = 1) ∨ ((σ.th x).pc = .la1 ∧ σ.ncons (σ.th x).s = 1)))) := by
+      (((σ.th x).g ∈ σ.sl ∧ (σ.hs (σ.th x).g).sender = true ∧ σ.writers = 1) ∨
+       ((σ.th x).g ∈ σ.cl (σ.th x).s ∧ (σ.hs (σ.th x).g).sender = false ∧ σ.ncons (σ.th x).s = 1)))) := by
   rcases h with hpc | hpc
-  · simp only [stepRun, hpc]; split
+  · have hs := (M.thr x).snd (by rw [hpc]; rfl)
+    simp only [stepRun, hpc]; split
     · rename_i hw
-      refine ⟨rfl, rfl, rfl, rfl, rfl, ?_, Or.inr ⟨?_, Or.inl ⟨hpc, hw⟩⟩⟩
+      refine ⟨rfl, rfl, rfl, rfl, rfl, ?_, Or.inr ⟨?_, Or.inl ⟨hs.1, hs.2, hw⟩⟩⟩
       · intro a ha; simp [St.gotoF, St.setHd, St.setTh, St.flush, upd, ha]
       · simp [St.gotoF, St.setHd, St.setTh, St.flush, upd]
     · exact ⟨rfl, rfl, rfl, rfl, rfl, fun a _ => rfl, Or.inl rfl⟩
-  · simp only [stepRun, hpc]; split
+  · have hs := (M.thr x).rcv (by rw [hpc]; rfl)
+    simp only [stepRun, hpc]; split
     · have := stepLa2_htab σ (σ.flush x) x (σ.th x) (σ.th x).s
       obtain ⟨d1, d2, d3, d4, d5⟩ := htab_fields this
       refine ⟨d1, d2, d3, d4, stepLa2_ring _ _ _ _ _, fun a _ => by rw [d5]; rfl, Or.inl (by rw [d5]; rfl)⟩
     · split
       · rename_i hw
-        refine ⟨rfl, rfl, rfl, rfl, rfl, ?_, Or.inr ⟨?_, Or.inr ⟨hpc, hw⟩⟩⟩
+        refine ⟨rfl, rfl, rfl, rfl, rfl, ?_, Or.inr ⟨?_, Or.inr ⟨hs.1, hs.2, hw⟩⟩⟩
         · intro a ha; simp [St.gotoF, St.setHd, St.setTh, St.flush, upd, ha]
         · simp [St.gotoF, St.setHd, St.setTh, St.flush, upd]
       · exact ⟨rfl, rfl, rfl, rfl, rfl, fun a _ => rfl, Or.inl rfl⟩
 
 theorem minv_run_uni {σ : St} (x inp : Nat) (M : MInv σ) (h : (σ.th x).pc = .m1 ∨ (σ.th x).pc = .la1) :
     MInv (stepRun σ x inp).2 := by
-  obtain ⟨e1, e2, e3, e4, e5, e6, e7⟩ := uni_step_facts σ x inp h
+  obtain ⟨e1, e2, e3, e4, e5, e6, e7⟩ := uni_step_facts σ x inp M h
   have hxi : (σ.th x).pc ≠ .idle := by rcases h with h | h <;> (rw [h]; simp)
   have Lx : TLoc (stepRun σ x inp).2 ((stepRun σ x inp).2.th x) := by
     rcases h with h | h
@@ -104,16 +108,13 @@ theorem minv_run_uni {σ : St} (x inp : Nat) (M : MInv σ) (h : (σ.th x).pc = .
     by_cases ha : a = (σ.th x).g
     · subst ha
       rcases e7 with e | ⟨e, _⟩ <;> rw [e] <;> simp
-    · rw [e6 a ha]; simp
-  have gsl : (σ.th x).pc = .m1 → (σ.th x).g ∈ σ.sl ∧ (σ.hs (σ.th x).g).sender = true := fun hp => (M.thr x).snd (by rw [hp]; rfl)
-  have gcl : (σ.th x).pc = .la1 → (σ.th x).g ∈ σ.cl (σ.th x).s ∧ (σ.hs (σ.th x).g).sender = false :=
-    fun hp => (M.thr x).rcv (by rw [hp]; rfl)
+    · rw [e6 a ha]; exact ⟨rfl, rfl, rfl, rfl, rfl, rfl, fun h => Or.inl h⟩
   refine ⟨by rw [e1, e3]; exact M.wr, by intro s; rw [e2, e4]; exact M.nc s, ?_, ?_, ?_, ?_, ?_, ?_, ?_, ?_, ?_, ?_, ?_⟩
   · intro u; rw [mth]; split
     · exact Lx
     · rename_i hu
       exact thr_other M hu hxi e6 (fun a _ ha => by rw [e3]; exact ha) (fun a s _ ha => by rw [e4]; exact ha)
-        (fun _ s _ hs => by rw [e4]; exact hs) (by rw [hest]; exact id) (fun _ hs => by rw [e4]; exact hs)
+        (fun _ hs _ => by rw [e4]; exact hs) (fun _ hs => by rw [e4]; exact hs) (by rw [hest]; exact id) (fun _ hs => by rw [e4]; exact hs)
   · intro t u htu ht hu
     have gt : ((stepRun σ x inp).2.th t).g = (σ.th t).g := by
       rw [mth]; split
@@ -140,13 +141,13 @@ theorem minv_run_uni {σ : St} (x inp : Nat) (M : MInv σ) (h : (σ.th x).pc = .
     · subst h1
       rcases e7 with e | ⟨e, hc⟩
       · rw [e] at hu; exact M.uniS _ hg hu
-      · rcases hc with ⟨hp, hw⟩ | ⟨hp, _⟩
+      · rcases hc with ⟨_, _, hw⟩ | ⟨_, hp, _⟩
         · -- sole writer
           have hl : σ.sl.length = 1 := by rw [← M.wr]; exact hw
           match hsl : σ.sl, hl with
           | [a], _ => rw [hsl] at hg; simp at hg; rw [hg]
         · -- a receiver handle is not in `sl`
-          have := (M.slKind _ hg).1; rw [(gcl hp).2] at this; cases this
+          have := (M.slKind _ hg).1; rw [hp] at this; cases this
   · -- uniR
     intro g s hg hu
     rw [e4] at hg ⊢
@@ -157,10 +158,9 @@ theorem minv_run_uni {σ : St} (x inp : Nat) (M : MInv σ) (h : (σ.th x).pc = .
       · subst h1
         rcases e7 with e | ⟨e, hc⟩
         · rw [e] at hu; exact M.uniR _ s hg (Or.inl hu)
-        · rcases hc with ⟨hp, _⟩ | ⟨hp, hw⟩
-          · have := (M.clKind _ s hg).1; rw [(gsl hp).2] at this; cases this
+        · rcases hc with ⟨_, hp, _⟩ | ⟨hmem, _, hw⟩
+          · have := (M.clKind _ s hg).1; rw [hp] at this; cases this
           · -- sole consumer of its stream; and the handle is counted on that stream only
-            have hmem := (gcl hp).1
             have hl : (σ.cl (σ.th x).s).length = 1 := by rw [← M.nc]; exact hw
             have hone : σ.cl (σ.th x).s = [(σ.th x).g] := by
               match hsl : σ.cl (σ.th x).s, hl with
@@ -204,5 +204,377 @@ theorem minv_run_uni {σ : St} (x inp : Nat) (M : MInv σ) (h : (σ.th x).pc = .
       · subst e2; exact absurd hu nx
       · rw [stepRun_th σ x inp t e1] at ht ⊢; rw [stepRun_th σ x inp u e2] at hu ⊢
         exact M.nginj t u htu ht hu
+
+macro "tl_auto" : tactic =>
+  `(tactic| (simp_all [St.goto, St.gotoF, St.flush, St.setTh, St.setHd, upd,
+      PC.sendOp, PC.singleSendX, PC.singleSend, PC.recvOp, PC.recvActive, PC.viewPC, PC.cloneS, PC.remPC, PC.afterNew,
+      PC.addPC, PC.kOK, Outer.futConv, Outer.viewCall, newHd]; done))
+
+/-- excl / nginj across a step of `x` whose new program point is not a creating one or keeps `ng`, and that never
+becomes idle -/
+theorem excl_step {σ : St} (x inp : Nat) (M : MInv σ) (hxi : (σ.th x).pc ≠ .idle) :
+    ∀ t u, t ≠ u → ((stepRun σ x inp).2.th t).pc ≠ .idle → ((stepRun σ x inp).2.th u).pc ≠ .idle →
+      ((stepRun σ x inp).2.th t).g ≠ ((stepRun σ x inp).2.th u).g := by
+  intro t u htu ht hu
+  have gt : ((stepRun σ x inp).2.th t).g = (σ.th t).g := by
+    rw [mth]; split
+    · rename_i e; subst e; exact stepRun_g σ t inp
+    · rfl
+  have gu : ((stepRun σ x inp).2.th u).g = (σ.th u).g := by
+    rw [mth]; split
+    · rename_i e; subst e; exact stepRun_g σ u inp
+    · rfl
+  have it : (σ.th t).pc ≠ .idle := by
+    rw [mth] at ht; split at ht
+    · rename_i e; subst e; exact hxi
+    · exact ht
+  have iu : (σ.th u).pc ≠ .idle := by
+    rw [mth] at hu; split at hu
+    · rename_i e; subst e; exact hxi
+    · exact hu
+  rw [gt, gu]; exact M.excl t u htu it iu
+
+theorem nginj_step {σ : St} (x inp : Nat) (M : MInv σ)
+    (hc : ((stepRun σ x inp).2.th x).creating → (σ.th x).creating ∧ ((stepRun σ x inp).2.th x).ng = (σ.th x).ng) :
+    ∀ t u, t ≠ u → ((stepRun σ x inp).2.th t).creating → ((stepRun σ x inp).2.th u).creating →
+      ((stepRun σ x inp).2.th t).ng ≠ ((stepRun σ x inp).2.th u).ng := by
+  intro t u htu ht hu
+  have ct : (σ.th t).creating ∧ ((stepRun σ x inp).2.th t).ng = (σ.th t).ng := by
+    rw [mth] at ht ⊢; split at ht
+    · rename_i e; subst e; simp only [if_true]; exact hc ht
+    · rename_i e; simp only [e, if_false]; exact ⟨ht, trivial⟩
+  have cu : (σ.th u).creating ∧ ((stepRun σ x inp).2.th u).ng = (σ.th u).ng := by
+    rw [mth] at hu ⊢; split at hu
+    · rename_i e; subst e; simp only [if_true]; exact hc hu
+    · rename_i e; simp only [e, if_false]; exact ⟨hu, trivial⟩
+  rw [ct.2, cu.2]; exact M.nginj t u htu ct.1 cu.1
+
+/-- sender clone: the new handle is counted -/
+theorem minv_run_cs1 {σ : St} (x inp : Nat) (M : MInv σ) (hpc : (σ.th x).pc = .cs1) : MInv (stepRun σ x inp).2 := by
+  have hxi : (σ.th x).pc ≠ .idle := by rw [hpc]; simp
+  obtain ⟨c1, c2, c3, c4, c5⟩ := (M.thr x).cs (by rw [hpc]; rfl)
+  have e : (stepRun σ x inp).2 = ({ σ.flush x with writers := σ.writers + 1, live := σ.live + 1, sl := σ.sl ++ [(σ.th x).ng] }).goto x (.ret .new) := by
+    simp only [stepRun, hpc]
+  have e_hs : (stepRun σ x inp).2.hs = σ.hs := by rw [e]; rfl
+  have e_sl : (stepRun σ x inp).2.sl = σ.sl ++ [(σ.th x).ng] := by rw [e]; rfl
+  have e_cl : (stepRun σ x inp).2.cl = σ.cl := by rw [e]; rfl
+  have e_wr : (stepRun σ x inp).2.writers = σ.writers + 1 := by rw [e]; rfl
+  have e_nc : (stepRun σ x inp).2.ncons = σ.ncons := by rw [e]; rfl
+  have e_ring : (stepRun σ x inp).2.ring = σ.ring := by rw [e]; rfl
+  have e_est : (stepRun σ x inp).2.est = σ.est := by rw [e]; rfl
+  have Lx : TLoc (stepRun σ x inp).2 ((stepRun σ x inp).2.th x) := by
+    obtain ⟨l1, l2, l3, l4, l5, l6, l7, l8, l9, l10, l11, l12, l13, l14, l15, l16, l17, l18, l19, l20, l21⟩ := M.thr x
+    rw [hpc] at l1 l2 l3 l4 l5 l6 l7 l8 l9 l10 l11 l12 l13 l14 l15 l16 l17 l18 l19 l20 l21
+    rw [e]
+    refine ⟨?_, ?_, ?_, ?_, ?_, ?_, ?_, ?_, ?_, ?_, ?_, ?_, ?_, ?_, ?_, ?_, ?_, ?_, ?_, ?_, ?_⟩
+    all_goals tl_auto
+  refine ⟨by rw [e_wr, e_sl, M.wr]; simp, by intro s; rw [e_nc, e_cl]; exact M.nc s, ?_, excl_step x inp M hxi,
+    ?_, ?_, ?_, ?_, ?_, ?_, ?_, ?_, ?_⟩
+  · intro u; rw [mth]; split
+    · exact Lx
+    · rename_i hu
+      exact thr_other M hu hxi (fun a _ => by rw [e_hs]) (fun a _ ha => by rw [e_sl]; simp [ha])
+        (fun a s _ ha => by rw [e_cl]; exact ha) (fun _ hs _ => by rw [e_cl]; exact hs) (fun _ hs => by rw [e_cl]; exact hs) (by rw [e_est]; exact id)
+        (fun _ hs => by rw [e_cl]; exact hs)
+  · -- uniS: after the clone nobody is in Uni mode
+    intro g hg hu
+    rw [e_hs] at hu; rw [e_sl] at hg
+    exfalso
+    rcases List.mem_append.mp hg with h | h
+    · have := M.uniS g h hu
+      have hm : (σ.th x).g ∈ [g] := by rw [← this]; exact c1
+      simp at hm; rw [hm] at c3; rw [c3] at hu; cases hu
+    · simp at h; rw [h, c5] at hu; cases hu
+  · intro g s hg hu; rw [e_cl] at hg ⊢; rw [e_hs] at hu; exact M.uniR g s hg hu
+  · intro s hs; rw [e_cl] at hs; rw [e_ring]; exact M.clReg s hs
+  · intro g ha hb hc; rw [e_hs] at ha hb hc; rw [e_sl]; simp [M.idleS g ha hb hc]
+  · intro g ha hb hc; rw [e_hs] at ha hb hc ⊢; rw [e_cl]; exact M.idleR g ha hb hc
+  · intro g ha; rw [e_hs] at ha ⊢; exact M.aliveUsed g ha
+  · intro g hg
+    rw [e_sl] at hg; rw [e_hs]
+    rcases List.mem_append.mp hg with h | h
+    · exact M.slKind g h
+    · simp at h; rw [h]; exact ⟨c4.1, c4.2.2.1⟩
+  · intro g s hg; rw [e_cl] at hg; rw [e_hs]; exact M.clKind g s hg
+  · apply nginj_step x inp M
+    intro _
+    exact ⟨Or.inl (by rw [hpc]; rfl), by rw [e]; simp [St.goto, St.setTh, St.flush, upd]⟩
+
+/-- sender drop: the handle leaves the count -/
+theorem minv_run_ds1 {σ : St} (x inp : Nat) (M : MInv σ) (hpc : (σ.th x).pc = .ds1) : MInv (stepRun σ x inp).2 := by
+  have hxi : (σ.th x).pc ≠ .idle := by rw [hpc]; simp
+  have hg := ((M.thr x).ds hpc).1
+  have e : (stepRun σ x inp).2 = ({ σ.flush x with writers := σ.writers - 1, sl := σ.sl.erase (σ.th x).g }).gotoF x (.u1 (.rmTok 0)) [.sc] := by
+    simp only [stepRun, hpc]
+  have e_hs : (stepRun σ x inp).2.hs = σ.hs := by rw [e]; rfl
+  have e_sl : (stepRun σ x inp).2.sl = σ.sl.erase (σ.th x).g := by rw [e]; rfl
+  have e_cl : (stepRun σ x inp).2.cl = σ.cl := by rw [e]; rfl
+  have e_wr : (stepRun σ x inp).2.writers = σ.writers - 1 := by rw [e]; rfl
+  have e_nc : (stepRun σ x inp).2.ncons = σ.ncons := by rw [e]; rfl
+  have e_ring : (stepRun σ x inp).2.ring = σ.ring := by rw [e]; rfl
+  have e_est : (stepRun σ x inp).2.est = σ.est := by rw [e]; rfl
+  have hbusy := ((M.thr x).busy hxi).1
+  have Lx : TLoc (stepRun σ x inp).2 ((stepRun σ x inp).2.th x) := by
+    obtain ⟨l1, l2, l3, l4, l5, l6, l7, l8, l9, l10, l11, l12, l13, l14, l15, l16, l17, l18, l19, l20, l21⟩ := M.thr x
+    rw [hpc] at l1 l2 l3 l4 l5 l6 l7 l8 l9 l10 l11 l12 l13 l14 l15 l16 l17 l18 l19 l20 l21
+    rw [e]
+    refine ⟨?_, ?_, ?_, ?_, ?_, ?_, ?_, ?_, ?_, ?_, ?_, ?_, ?_, ?_, ?_, ?_, ?_, ?_, ?_, ?_, ?_⟩
+    all_goals tl_auto
+  refine ⟨by rw [e_wr, e_sl, M.wr, List.length_erase_of_mem hg], by intro s; rw [e_nc, e_cl]; exact M.nc s, ?_,
+    excl_step x inp M hxi, ?_, ?_, ?_, ?_, ?_, ?_, ?_, ?_, ?_⟩
+  · intro u; rw [mth]; split
+    · exact Lx
+    · rename_i hu
+      exact thr_other M hu hxi (fun a _ => by rw [e_hs])
+        (fun a hne ha => by rw [e_sl]; exact (List.mem_erase_of_ne hne).mpr ha)
+        (fun a s _ ha => by rw [e_cl]; exact ha) (fun _ hs _ => by rw [e_cl]; exact hs) (fun _ hs => by rw [e_cl]; exact hs) (by rw [e_est]; exact id)
+        (fun _ hs => by rw [e_cl]; exact hs)
+  · intro g hg' hu
+    rw [e_hs] at hu; rw [e_sl] at hg' ⊢
+    exfalso
+    have hm := List.mem_of_mem_erase hg'
+    have := M.uniS g hm hu
+    rw [this] at hg hg'
+    simp at hg; rw [hg] at hg'; simp at hg'
+  · intro g s hg' hu; rw [e_cl] at hg' ⊢; rw [e_hs] at hu; exact M.uniR g s hg' hu
+  · intro s hs; rw [e_cl] at hs; rw [e_ring]; exact M.clReg s hs
+  · intro g ha hb hc; rw [e_hs] at ha hb hc; rw [e_sl]
+    have hne : g ≠ (σ.th x).g := by intro e'; rw [e', hbusy] at hb; cases hb
+    exact (List.mem_erase_of_ne hne).mpr (M.idleS g ha hb hc)
+  · intro g ha hb hc; rw [e_hs] at ha hb hc ⊢; rw [e_cl]; exact M.idleR g ha hb hc
+  · intro g ha; rw [e_hs] at ha ⊢; exact M.aliveUsed g ha
+  · intro g hg'; rw [e_sl] at hg'; rw [e_hs]; exact M.slKind g (List.mem_of_mem_erase hg')
+  · intro g s hg'; rw [e_cl] at hg'; rw [e_hs]; exact M.clKind g s hg'
+  · apply nginj_step x inp M
+    intro hc; exfalso
+    rw [e] at hc
+    simp [Th.creating, St.gotoF, St.setTh, St.flush, upd, PC.cloneS, PC.addPC, PC.afterNew] at hc
+
+theorem upd_cl_mem {cl : Nat → List Nat} {s s' a : Nat} {l : List Nat} (h : a ∈ cl s') (hl : ∀ b, b ∈ cl s → b ∈ l) :
+    a ∈ upd cl s l s' := by
+  simp only [upd]; split
+  · rename_i e; subst e; exact hl a h
+  · exact h
+
+/-- receiver clone: the new handle is counted on the stream, the source leaves Single mode -/
+theorem minv_run_cr1 {σ : St} (x inp : Nat) (M : MInv σ) (hpc : (σ.th x).pc = .cr1) : MInv (stepRun σ x inp).2 := by
+  have hxi : (σ.th x).pc ≠ .idle := by rw [hpc]; simp
+  obtain ⟨c1, c2, c3, c4, c5, c6⟩ := (M.thr x).cr hpc
+  have hnc := (M.thr x).noconv hxi
+  have hout : (σ.th x).outer ≠ .intoSingleFut := by intro e; rw [e] at hnc; cases hnc
+  have hbusy := ((M.thr x).busy hxi).1
+  have e : (stepRun σ x inp).2 = (({ σ.flush x with ncons := upd σ.ncons (σ.th x).s (σ.ncons (σ.th x).s + 1), cl := upd σ.cl (σ.th x).s (σ.cl (σ.th x).s ++ [(σ.th x).ng]), live := σ.live + 1 }).setHd (σ.th x).g fun y => { y with uni := false }).goto x (.gt1 .retNew) := by
+    simp only [stepRun, hpc, hout, if_false]
+  have e_sl : (stepRun σ x inp).2.sl = σ.sl := by rw [e]; rfl
+  have e_cl : (stepRun σ x inp).2.cl = upd σ.cl (σ.th x).s (σ.cl (σ.th x).s ++ [(σ.th x).ng]) := by rw [e]; rfl
+  have e_wr : (stepRun σ x inp).2.writers = σ.writers := by rw [e]; rfl
+  have e_nc : (stepRun σ x inp).2.ncons = upd σ.ncons (σ.th x).s (σ.ncons (σ.th x).s + 1) := by rw [e]; rfl
+  have e_ring : (stepRun σ x inp).2.ring = σ.ring := by rw [e]; rfl
+  have e_est : (stepRun σ x inp).2.est = σ.est := by rw [e]; rfl
+  have e_hs : ∀ a, a ≠ (σ.th x).g → (stepRun σ x inp).2.hs a = σ.hs a := by
+    intro a ha; rw [e]; simp [St.goto, St.setHd, St.setTh, St.flush, upd, ha]
+  have e_hg : (stepRun σ x inp).2.hs (σ.th x).g = { σ.hs (σ.th x).g with uni := false } := by
+    rw [e]; simp [St.goto, St.setHd, St.setTh, St.flush, upd]
+  have hsame : ∀ a, ((stepRun σ x inp).2.hs a).sender = (σ.hs a).sender ∧ ((stepRun σ x inp).2.hs a).alive = (σ.hs a).alive ∧
+      ((stepRun σ x inp).2.hs a).busy = (σ.hs a).busy ∧ ((stepRun σ x inp).2.hs a).used = (σ.hs a).used ∧
+      ((stepRun σ x inp).2.hs a).view = (σ.hs a).view ∧ ((stepRun σ x inp).2.hs a).stream = (σ.hs a).stream ∧
+      (((stepRun σ x inp).2.hs a).uni = true → (σ.hs a).uni = true ∧ a ≠ (σ.th x).g) := by
+    intro a
+    by_cases ha : a = (σ.th x).g
+    · subst ha; rw [e_hg]; simp
+    · rw [e_hs a ha]; exact ⟨rfl, rfl, rfl, rfl, rfl, rfl, fun h => ⟨h, ha⟩⟩
+  have hngne : (σ.th x).ng ≠ (σ.th x).g := by
+    intro e'; have := c4.2.2.2.1; rw [e', hbusy] at this; cases this
+  have Lx : TLoc (stepRun σ x inp).2 ((stepRun σ x inp).2.th x) := by
+    obtain ⟨l1, l2, l3, l4, l5, l6, l7, l8, l9, l10, l11, l12, l13, l14, l15, l16, l17, l18, l19, l20, l21⟩ := M.thr x
+    rw [hpc] at l1 l2 l3 l4 l5 l6 l7 l8 l9 l10 l11 l12 l13 l14 l15 l16 l17 l18 l19 l20 l21
+    rw [e]
+    refine ⟨?_, ?_, ?_, ?_, ?_, ?_, ?_, ?_, ?_, ?_, ?_, ?_, ?_, ?_, ?_, ?_, ?_, ?_, ?_, ?_, ?_⟩
+    all_goals tl_auto
+  refine ⟨by rw [e_wr, e_sl]; exact M.wr, ?_, ?_, excl_step x inp M hxi, ?_, ?_, ?_, ?_, ?_, ?_, ?_, ?_, ?_⟩
+  · intro s; rw [e_nc, e_cl]; simp only [upd]; split
+    · rename_i es; subst es; rw [M.nc]; simp
+    · exact M.nc s
+  · intro u; rw [mth]; split
+    · exact Lx
+    · rename_i hu
+      obtain ⟨o1, o2⟩ := other_handles M hu hxi
+      refine thr_other M hu hxi e_hs (fun a _ ha => by rw [e_sl]; exact ha)
+        (fun a s _ ha => by rw [e_cl]; exact upd_cl_mem ha (fun b hb => by simp [hb])) ?_ ?_ (by rw [e_est]; exact id) ?_
+      · intro _ hnil _
+        rw [e_cl]; simp only [upd]; split
+        · rename_i es; rw [es] at hnil; rw [hnil] at c1; cases c1
+        · exact hnil
+      · intro _ hnil
+        rw [e_cl]; simp only [upd]; split
+        · rename_i es; rw [es] at hnil; rw [hnil] at c1; cases c1
+        · exact hnil
+      · intro hui hsing
+        rw [e_cl]; simp only [upd]; split
+        · rename_i es
+          rw [es] at hsing; rw [hsing] at c1; simp at c1
+          exact absurd c1.symm (o1 hui)
+        · exact hsing
+  · intro g hg hu
+    rw [e_sl] at hg ⊢
+    exact M.uniS g hg ((hsame g).2.2.2.2.2.2 hu).1
+  · -- uniR: on the cloned stream nobody is Single or a view any more
+    intro g s hg hu
+    rw [e_cl] at hg ⊢
+    have hflag : (σ.hs g).uni = true ∨ (σ.hs g).view = true := by
+      rcases hu with h | h
+      · exact Or.inl ((hsame g).2.2.2.2.2.2 h).1
+      · rw [(hsame g).2.2.2.2.1] at h; exact Or.inr h
+    have hgne : g ≠ (σ.th x).g ∨ ((σ.hs g).view = true) := by
+      rcases hu with h | h
+      · exact Or.inl ((hsame g).2.2.2.2.2.2 h).2
+      · rw [(hsame g).2.2.2.2.1] at h; exact Or.inr h
+    simp only [upd] at hg ⊢
+    split at hg
+    · rename_i es; subst es
+      exfalso
+      rcases List.mem_append.mp hg with h | h
+      · have h1 := M.uniR g _ h hflag
+        rw [h1] at c1; simp at c1
+        rcases hgne with h2 | h2
+        · exact h2 c1.symm
+        · rw [← c1, c3] at h2; cases h2
+      · simp at h
+        rcases hflag with h2 | h2
+        · rw [h, c5] at h2; cases h2
+        · rw [h, c4.2.2.2.2] at h2; cases h2
+    · rename_i es; rw [if_neg es]; exact M.uniR g s hg hflag
+  · intro s hs
+    rw [e_ring]
+    rw [e_cl] at hs
+    apply M.clReg
+    simp only [upd] at hs; split at hs
+    · rename_i es; subst es; exact List.ne_nil_of_mem c1
+    · exact hs
+  · intro g ha hb hc
+    obtain ⟨f1, f2, f3, _⟩ := hsame g
+    rw [e_sl]; exact M.idleS g (by rw [← f2]; exact ha) (by rw [← f3]; exact hb) (by rw [← f1]; exact hc)
+  · intro g ha hb hc
+    obtain ⟨f1, f2, f3, _, _, f6, _⟩ := hsame g
+    rw [e_cl, f6]
+    exact upd_cl_mem (M.idleR g (by rw [← f2]; exact ha) (by rw [← f3]; exact hb) (by rw [← f1]; exact hc))
+      (fun b hb => by simp [hb])
+  · intro g ha
+    obtain ⟨_, f2, _, f4, _⟩ := hsame g
+    rw [f4]; exact M.aliveUsed g (by rw [← f2]; exact ha)
+  · intro g hg
+    obtain ⟨f1, _, _, f4, _⟩ := hsame g
+    rw [e_sl] at hg; rw [f1, f4]; exact M.slKind g hg
+  · intro g s hg
+    obtain ⟨f1, _, _, f4, _, f6, _⟩ := hsame g
+    rw [e_cl] at hg; rw [f1, f4, f6]
+    simp only [upd] at hg; split at hg
+    · rename_i es; subst es
+      rcases List.mem_append.mp hg with h | h
+      · exact M.clKind g _ h
+      · simp at h; rw [h]; exact ⟨c4.1, c4.2.2.1, c6⟩
+    · exact M.clKind g s hg
+  · apply nginj_step x inp M
+    intro _
+    exact ⟨Or.inr (Or.inl hpc), by rw [e]; simp [St.goto, St.setHd, St.setTh, St.flush, upd]⟩
+
+theorem erase_singleton_of_len {l : List Nat} {a : Nat} (h : a ∈ l) (hl : l.length = 1) : l.erase a = [] := by
+  match l, hl with
+  | [b], _ => simp at h; subst h; simp
+
+/-- receiver drop / unsubscribe: the handle leaves the count of its stream -/
+theorem minv_run_dr1 {σ : St} (x inp : Nat) (M : MInv σ) (R : RegInv σ) (hpc : (σ.th x).pc = .dr1) :
+    MInv (stepRun σ x inp).2 := by
+  have hxi : (σ.th x).pc ≠ .idle := by rw [hpc]; simp
+  obtain ⟨c1, c2⟩ := (M.thr x).dr (Or.inr hpc)
+  have hnc := (M.thr x).noconv hxi
+  have hout : (σ.th x).outer ≠ .intoSingleFut := by intro e; rw [e] at hnc; cases hnc
+  have hbusy := ((M.thr x).busy hxi).1
+  have hest : σ.est (σ.th x).s = true := by
+    have := M.clReg _ (List.ne_nil_of_mem c1)
+    exact R.regest _ (by simpa [reg, St.ring] using this)
+  have e_sl : (stepRun σ x inp).2.sl = σ.sl := by simp only [stepRun, hpc, hout, if_false]; split <;> rfl
+  have e_cl : (stepRun σ x inp).2.cl = upd σ.cl (σ.th x).s ((σ.cl (σ.th x).s).erase (σ.th x).g) := by
+    simp only [stepRun, hpc, hout, if_false]; split <;> rfl
+  have e_wr : (stepRun σ x inp).2.writers = σ.writers := by simp only [stepRun, hpc, hout, if_false]; split <;> rfl
+  have e_nc : (stepRun σ x inp).2.ncons = upd σ.ncons (σ.th x).s (σ.ncons (σ.th x).s - 1) := by
+    simp only [stepRun, hpc, hout, if_false]; split <;> rfl
+  have e_ring : (stepRun σ x inp).2.ring = σ.ring := by simp only [stepRun, hpc, hout, if_false]; split <;> rfl
+  have e_est : (stepRun σ x inp).2.est = σ.est := by simp only [stepRun, hpc, hout, if_false]; split <;> rfl
+  have e_hs : (stepRun σ x inp).2.hs = σ.hs := by simp only [stepRun, hpc, hout, if_false]; split <;> rfl
+  have Lx : TLoc (stepRun σ x inp).2 ((stepRun σ x inp).2.th x) := by
+    obtain ⟨l1, l2, l3, l4, l5, l6, l7, l8, l9, l10, l11, l12, l13, l14, l15, l16, l17, l18, l19, l20, l21⟩ := M.thr x
+    rw [hpc] at l1 l2 l3 l4 l5 l6 l7 l8 l9 l10 l11 l12 l13 l14 l15 l16 l17 l18 l19 l20 l21
+    have hlen := M.nc (σ.th x).s
+    simp only [stepRun, hpc, hout, if_false]
+    split
+    all_goals
+      refine ⟨?_, ?_, ?_, ?_, ?_, ?_, ?_, ?_, ?_, ?_, ?_, ?_, ?_, ?_, ?_, ?_, ?_, ?_, ?_, ?_, ?_⟩
+    all_goals first | tl_auto | skip
+    all_goals trace_state
+    all_goals sorry
+  have keep : ∀ a s, a ≠ (σ.th x).g → a ∈ σ.cl s → a ∈ upd σ.cl (σ.th x).s ((σ.cl (σ.th x).s).erase (σ.th x).g) s := by
+    intro a s hne ha
+    simp only [upd]; split
+    · rename_i es; subst es; exact (List.mem_erase_of_ne hne).mpr ha
+    · exact ha
+  have back : ∀ a s, a ∈ upd σ.cl (σ.th x).s ((σ.cl (σ.th x).s).erase (σ.th x).g) s → a ∈ σ.cl s := by
+    intro a s ha
+    simp only [upd] at ha; split at ha
+    · rename_i es; subst es; exact List.mem_of_mem_erase ha
+    · exact ha
+  refine ⟨by rw [e_wr, e_sl]; exact M.wr, ?_, ?_, excl_step x inp M hxi, ?_, ?_, ?_, ?_, ?_, ?_, ?_, ?_, ?_⟩
+  · intro s; rw [e_nc, e_cl]; simp only [upd]; split
+    · rename_i es; subst es; rw [M.nc, List.length_erase_of_mem c1]
+    · exact M.nc s
+  · intro u; rw [mth]; split
+    · exact Lx
+    · rename_i hu
+      obtain ⟨o1, o2⟩ := other_handles M hu hxi
+      refine thr_other M hu hxi (fun a _ => by rw [e_hs]) (fun a _ ha => by rw [e_sl]; exact ha)
+        (fun a s hne ha => by rw [e_cl]; exact keep a s hne ha) ?_ ?_ (by rw [e_est]; exact id) ?_
+      · intro _ hnil _
+        rw [e_cl]; simp only [upd]; split
+        · rename_i es; rw [es] at hnil; rw [hnil]; rfl
+        · exact hnil
+      · intro _ hnil
+        rw [e_cl]; simp only [upd]; split
+        · rename_i es; rw [es] at hnil; rw [hnil]; rfl
+        · exact hnil
+      · intro hui hsing
+        rw [e_cl]; simp only [upd]; split
+        · rename_i es
+          rw [es] at hsing; rw [hsing] at c1; simp at c1
+          exact absurd c1.symm (o1 hui)
+        · exact hsing
+  · intro g hg hu; rw [e_sl] at hg ⊢; rw [e_hs] at hu; exact M.uniS g hg hu
+  · intro g s hg hu
+    rw [e_cl] at hg ⊢; rw [e_hs] at hu
+    have hm := back g s hg
+    have h1 := M.uniR g s hm hu
+    simp only [upd] at hg ⊢; split at hg
+    · rename_i es; subst es
+      exfalso
+      rw [h1] at c1 hg; simp at c1; rw [c1] at hg; simp at hg
+    · rename_i es; rw [if_neg es]; exact h1
+  · intro s hs
+    rw [e_ring]; rw [e_cl] at hs
+    apply M.clReg
+    intro hnil; apply hs
+    simp only [upd]; split
+    · rename_i es; subst es; rw [hnil]; rfl
+    · exact hnil
+  · intro g ha hb hc; rw [e_hs] at ha hb hc; rw [e_sl]; exact M.idleS g ha hb hc
+  · intro g ha hb hc
+    rw [e_hs] at ha hb hc ⊢; rw [e_cl]
+    have hne : g ≠ (σ.th x).g := by intro e'; rw [e', hbusy] at hb; cases hb
+    exact keep g _ hne (M.idleR g ha hb hc)
+  · intro g ha; rw [e_hs] at ha ⊢; exact M.aliveUsed g ha
+  · intro g hg; rw [e_sl] at hg; rw [e_hs]; exact M.slKind g hg
+  · intro g s hg; rw [e_cl] at hg; rw [e_hs]; exact M.clKind g s (back g s hg)
+  · apply nginj_step x inp M
+    intro hc; exfalso
+    simp only [stepRun, hpc, hout, if_false] at hc
+    split at hc <;> simp [Th.creating, St.goto, St.setTh, St.flush, upd, PC.cloneS, PC.addPC, PC.afterNew] at hc
 
 end MQ
